@@ -19,6 +19,7 @@ def replay(prop, tlc, seed, per_scn, backends="default", threads=12, dh=None, ex
         args += ["--dh", dh]
     rc, out = harness(args)
     res = json.load(open(resf))
+    log(f"replay {tlc['name']}: {res['instances']} instances, {res['calls']} calls, {res.get('violations_total', 0)} violations")
     os.remove(tlc["out"])       # scenario dumps are large; the replay files keep what matters
     return res
 
@@ -511,8 +512,73 @@ def c19(tier, seed):
                  "8-byte match has probability about 2^-64 per comparison"])
 
 
+def c10(tier, seed):
+    names = name_table()
+    # (a) model-derived boundaries: every failing call of Appendix A at every field boundary, every phase
+    if tier == "quick":
+        t1 = session("c10-faults", FaultBudget=1, PubLens=[65], InitPads=[False], Variants=["tr"], TrafficMode="short",
+                     Profiles=["small"])
+        r1 = replay("C10", t1, seed, 1, threads=14)
+        sm = dict(FullRollback=True, PatSetS=["N", "NN", "XX", "IK", "X1X1", "K", "KX1"], PskSetS=[[], [0], [1]], Depth=7,
+                  MaxFail=3, EmitEdges=True)
+        sessions = 150000
+    else:
+        t1 = session("c10-faults", FaultBudget=1, PskMode="single", PubLens=[32, 65], InitPads=[False], Variants=["tr", "sl"],
+                     TrafficMode="short", Profiles=["small", "max"])
+        r1 = replay("C10", t1, seed, 2, threads=14)
+        sm = dict(FullRollback=True, PatSetS=BASE, PskSetS=[[], [0], [1], [2]], Depth=8, MaxFail=3, EmitEdges=True)
+        sessions = 5000000
+    t2 = run_tlc("MC_StateMachine", sm, invariants=["InvS"], name="c10-sm", timeout=3000, view="ViewS",
+                 action_constraint="EmitEdge")
+    r2 = replay("C10", t2, seed, 1, threads=14)
+    t3 = run_tlc("MC_Builder", dict(FullRollback=True, PatSetB=["NN", "XX", "K", "I1K1"]), invariants=["PrereqSane"],
+                 name="c10-builder", workers=1, timeout=1200)
+    r3 = replay("C10", t3, seed, 1, threads=14)
+    t4 = transport("c10-transport", MaxSend=1, Depth=3, BadBudget=2, SetBudget=1, RekeyBudget=1, SmallBufs=True)
+    r4 = replay("C10", t4, seed, 1, threads=14)
+    t5 = transport("c10-transport-big", MaxSend=1, Depth=2, BadBudget=1, SetBudget=0, SmallBufs=True, BigBudget=1)
+    r5 = replay("C10", t5, seed, 1, threads=14)
+    t6 = transport("c10-transport-sl", Stateful=False, MaxSend=1, Depth=2, BadBudget=1, SetBudget=0, SmallBufs=True, BigBudget=1)
+    r6 = replay("C10", t6, seed, 1, threads=14)
+    # name strings: the generic edits of the C13 driver, here only asked not to panic
+    nd = os.path.join(WORK, "c10-names.ndjson")
+    rc, out = harness(["names", "--names", names, "--seed", str(seed), "--seeds", "60" if tier == "quick" else "600",
+                       "--random", "20000" if tier == "quick" else "500000", "--out", nd, "--skip-language"])
+    nstr = json.loads(out.strip().splitlines()[-1])["strings"]
+    npan = []
+    for ln in open(nd):
+        if '"err":"panic"' in ln or '"err": "panic"' in ln:
+            npan.append(json.loads(ln)["s"])
+    os.remove(nd)
+    # (b) random protocol-agnostic driver (contents, lengths 0..66000, key lengths 0..200, any call at any time)
+    resf = os.path.join(WORK, "c10-fuzz.json")
+    rc, out = harness(["fuzz", "--names", names, "--seed", str(seed), "--sessions", str(sessions), "--threads", "14",
+                       "--result", resf, "--replay-dir", REPLAYS], timeout=7200)
+    fz = json.load(open(resf))
+    res = merge("exploration", [t1, t2, t3, t4, t5, t6], [r1, r2, r3, r4, r5, r6],
+                "the model is total (every call in every state has a defined Ok/Err outcome), so a panic, abort or stall is an "
+                "event no action explains. Two sources of cases: (a) TLC-derived boundaries replayed on the code under "
+                "catch_unwind - every failing call of Appendix A at every field boundary -1/-16/-17 of every message "
+                "(MC_Session faults), every call in every phase (MC_StateMachine edges), builder keys of lengths "
+                "{0,1,31,32,33,56,57,64,65,66,100,200}, set_psk at positions {0,4,9,10,11,255,256,70000} with lengths "
+                "{0,1,31,32,33,64}, transport boundary buffers and 65519/65520-byte payloads; (b) a random protocol-agnostic "
+                "driver: sessions of 10-50 calls with boundary-biased lengths 0..66000, arbitrary message bytes, key lengths "
+                "0..200, arbitrary name strings, conversions/rekeys/nonce settings at any time, with a stall watchdog; "
+                "distinct_nontrivial counts distinct (scenario, name) pairs of (a) only", ASSUME_SYMBOLIC,
+                extra_cov=dict(random_sessions=fz["sessions"], random_calls=fz["calls"], name_strings_parsed=nstr))
+    res["coverage"]["evaluations"] += fz["calls"] + nstr
+    res["violations"] += fz["violations"]
+    os.makedirs(os.path.join(REPLAYS, "C10"), exist_ok=True)
+    for s_ in npan[:3]:
+        p = os.path.join(REPLAYS, "C10", "name-" + hashlib.sha256(s_.encode()).hexdigest()[:12] + ".json")
+        json.dump(dict(property="C10", kind="name", string=s_), open(p, "w"))
+        res["violations"].append(dict(op="parse", what="panic", cause="", expected="Ok or Err", observed="panic",
+                                      replay=p, name=s_))
+    return res
+
+
 CHECKS = {
-    "C01": c01, "C02": c02, "C03": c03, "C04": c04, "C05": c05, "C06": c06, "C07": c07, "C08": c08, "C09": c09, "C11": c11, "C12": c12, "C13": c13,
+    "C01": c01, "C02": c02, "C03": c03, "C04": c04, "C05": c05, "C06": c06, "C07": c07, "C08": c08, "C09": c09, "C10": c10, "C11": c11, "C12": c12, "C13": c13,
     "C14": c14, "C15": c15, "C16": c16, "C17": c17, "C19": c19, "C20": c20,
 }
 
